@@ -50,6 +50,13 @@ def script_cases(rng, tier):
             for _ in range(rng.randint(0, 2)):
                 c.op("hseek", w, "c", rng.choice([0, 1, -1, -3, 10, I64MIN]))
                 c.op("hseek", w, "e", rng.choice([0, -1, 1, 9, -100]))
+            if not g.has_phys and i % 5 == 1:
+                # a write after a seek FAR past the end (beyond isize::MAX bytes) is refused, the handle stays usable
+                # (repair 14b1c2a; the model's write_too_large) - in-memory handles only
+                c.op("hseek", w, "s", rng.choice([U64MAX, 2 ** 63, I64MAX, U64MAX - 1]))
+                c.op("hwrite", w, vfx.hexs(rng.choice([b"Z", b"zz"])))
+                c.op("hseek", w, "s", rng.choice([0, 1, 2]))
+                c.op("hwrite", w, vfx.hexs(b"q"))
             # every third script: the handle goes out of scope while its owner unwinds from a panic - a drop like any other
             c.op("hdropunwind" if i % 3 == 2 else "hdrop", w)
             c.op("snap", t)
@@ -86,7 +93,7 @@ P = histprop.HistProp(
           "{0,+-1,len-1,len,len+1,-len,-len-1,i64::MIN,i64::MAX,2^40,u64::MAX} on read handles (file in the upper or in a lower "
           "layer), each script continued after a read_to_end (the drained handle must sit at its end); write/seek/flush scripts on create handles, also on a create handle over an existing non-empty file (it starts "
           "empty); seek on append handles on the in-memory configurations only; "
-          "every third write handle is dropped while its owner unwinds from a panic (harness op hdropunwind: a drop like any other); "
+          "a write after a seek beyond isize::MAX bytes is refused and the handle stays usable (in-memory handles); every third write handle is dropped while its owner unwinds from a panic (harness op hdropunwind: a drop like any other); "
           "every handle call's return value and the published bytes are compared, in debug and release builds"),
     assumptions=["write positions stay small (Vec allocation)", "std::io::Cursor semantics as stated in Base/Handles.v"])
 generate, corpus, known = P.generate, P.corpus, P.known
